@@ -205,6 +205,7 @@ func runCheck(repo, verif, prop, tier, only string, verbose, writeEvidence bool)
 		eng.timeoutS = 60
 		eng.race = true
 	}
+	eng.addNoPanicArgContracts()
 	fcs := eng.selectContracts(prop)
 	var results []*FuncResult
 	var mu sync.Mutex
@@ -233,6 +234,9 @@ func runCheck(repo, verif, prop, tier, only string, verbose, writeEvidence bool)
 		}(fc)
 	}
 	wg.Wait()
+	if prop == "C14" && only == "" && len(eng.extraErrors) > 0 {
+		results = append(results, &FuncResult{Key: "nopanicarg", Short: "nopanicarg", Errors: eng.extraErrors, Notes: map[string]int{}})
+	}
 	sort.Slice(results, func(i, j int) bool { return results[i].Key < results[j].Key })
 	var all []*Oblig
 	for _, r := range results {
@@ -602,7 +606,7 @@ func writeEvidenceFile(eng *Engine, verif, prop, tier string, seed int, results 
 		"integers: SMT Int with exact Go wrap-around semantics per operation (not idealised)",
 		"float64: real arithmetic with IEEE-754 relative error 2^-53 per operation, exact on representable integers |x|<=2^53; no NaN/Inf",
 		"[]byte and string contents are abstract immutable values (length, equality, concatenation only)",
-		"goroutine interleavings are not modelled: each function is verified sequentially; `go` statements generate no obligation at the site",
+		"goroutine interleavings are not modelled beyond declared rely clauses, lock / monitor / channel invariants: each function is verified sequentially; at a `go` statement only the preconditions of the started function are obligations, its effects are not part of the caller's state",
 		"termination is not verified",
 		"heap model: one SMT array per struct field (Burstall-Bornat); unsafe/reflect not modelled",
 	}
